@@ -630,6 +630,44 @@ func genDrops(seed int64, idx int) *Case {
 			}
 			c.Note = fmt.Sprintf("drop order %v of %d shards for coll %d part %d", pm, S, ob.ci, ob.pi)
 		}
+		if mode == 1 || mode == 3 {
+			// rows of the dropped object BEHIND its drop message, in the same pack, on the shard that delivers the drop
+			// last (on any other shard the rows of a dropped collection wait for the collection to be marked dropped,
+			// which the imposed delivery order would prevent)
+			si := 0
+			if S >= 2 {
+				si = permutations(S)[(idx/6)%len(permutations(S))][S-1]
+			}
+			kind := kDropColl
+			if ob.pi >= 0 {
+				kind = kDropPart
+			}
+			sp := c.Colls[ob.ci].Shards[si].SrcP
+			if k := findDropPack(c, ob.ci, si, ob.pi, kind); k >= 0 {
+				pk := &c.Scripts[sp][k]
+				for mi := range pk.Msgs {
+					m := &pk.Msgs[mi]
+					if m.Kind == kind && m.Coll == ob.ci && m.Shard == si && (kind == kDropColl || m.Part == ob.pi) && m.TS >= pk.EndTs {
+						m.TS = pk.EndTs - 1
+					}
+				}
+				part := ob.pi
+				if part < 0 {
+					part = rnd.Intn(len(c.Colls[ob.ci].Parts))
+				}
+				base := int64(idx%1000)*100000 + 90000
+				n := 1 + rnd.Intn(2)
+				for j := 0; j < n; j++ {
+					kd := kInsert
+					if j == 1 {
+						kd = kDelete
+					}
+					pk.Msgs = append(pk.Msgs, MsgSpec{UID: base + int64(j), Kind: kd, Coll: ob.ci, Shard: si, Part: part, TS: pk.EndTs, Rows: 1 + rnd.Intn(2), AfterDrop: true})
+				}
+				sort.SliceStable(pk.Msgs, func(i, j int) bool { return pk.Msgs[i].TS < pk.Msgs[j].TS })
+				c.Note += fmt.Sprintf(" + %d row message(s) behind the drop message on shard %d", n, si)
+			}
+		}
 	}
 	switch mode {
 	case 4: // stop a collection in the middle of the run: must never produce a drop
